@@ -189,6 +189,36 @@ func cmdPageSyn(args []string) int {
 		if len(rows) > 0 {
 			out.Stats["distinct_nontrivial"]++
 		}
+		// monitor (independent of the model): the previous cursor of a page at offset o > 0 must be usable and return
+		// the rows at positions [max(0,o-size), o) of the sorted listing (at most size of them)
+		if q.Size > 0 && q.Offset > 0 && q.Offset <= 1<<20 {
+			sorted := append([]*big.Int{}, ks...)
+			sort.Slice(sorted, func(i, j int) bool { return (sorted[i].Cmp(sorted[j]) < 0) == q.Asc })
+			lo := 0
+			if int(q.Offset) > int(q.Size) {
+				lo = int(q.Offset) - int(q.Size)
+			}
+			hi := min(lo+int(q.Size), len(sorted))
+			var want []*big.Int
+			if lo < hi {
+				want = sorted[lo:hi]
+			}
+			msg := ""
+			if p.Prev == nil {
+				msg = "no previous cursor"
+			} else if sb2, err := common.VerifOffsetPaginate(db.bun.NewSelect().ModelTableExpr("t").ColumnExpr("id"), *p.Prev); err != nil {
+				msg = fmt.Sprintf("previous cursor %s is refused: %v", offQSx(*p.Prev), err)
+			} else if rows2, err := db.scan(sb2); err != nil {
+				msg = "previous cursor fails: " + err.Error()
+			} else if p2, err := common.VerifOffsetBuildCursor(*p.Prev, rows2); err != nil {
+				msg = "previous cursor fails: " + err.Error()
+			} else if bigs(p2.Data) != bigs(want) {
+				msg = fmt.Sprintf("previous cursor %s returns (%s), the rows before the page are (%s)", offQSx(*p.Prev), bigs(p2.Data), bigs(want))
+			}
+			if msg != "" {
+				out.Violation("C21", cs, "[previous-page-offset] page at offset "+fmt.Sprint(q.Offset)+", size "+fmt.Sprint(q.Size)+": "+msg)
+			}
+		}
 	}
 	parseBigs := func(sx *Sx) []*big.Int {
 		var o []*big.Int
@@ -210,6 +240,8 @@ func cmdPageSyn(args []string) int {
 			sx, err := ParseSx(line)
 			must(err)
 			switch sx.List[0].Atom {
+			case "pages": // a TIE-D case (bin/check --replay goes through the first tie)
+				replayPagesLine(out, line)
 			case "fetch", "build":
 				ql := sx.List[1].List
 				q := common.VerifColQ{Size: uint64(atoi(ql[0].Atom)), Asc: ql[1].Atom == "1", PID: optB(ql[2]), Bottom: optB(ql[3]), Reverse: ql[4].Atom == "1"}
@@ -658,27 +690,10 @@ func cmdPages(args []string) int {
 		fmt.Sscan(v, &pct)
 	}
 	variants := pageVariants()
+	_ = time.Now
 	if f.Replay != "" {
 		for _, line := range ReadLines(f.Replay) {
-			sx, err := ParseSx(line)
-			must(err)
-			name := sx.List[2].List[1].Atom
-			var pit *libtime.Time
-			if a := sx.List[2].List[2].Atom; a != "nil" {
-				pit = &libtime.Time{Time: time.UnixMicro(atoi(a)).UTC()}
-			}
-			var sizes []int
-			for _, s := range sx.List[4].List {
-				sizes = append(sizes, int(atoi(s.Atom)))
-			}
-			asc := sx.List[5].Atom == "1"
-			feat, ops := parseHistCase(sexpString(sx.List[6]))
-			hr := runHistory(feat, ops, false)
-			for _, v := range variants {
-				if v.name == name {
-					checkVariant(out, hr, v, pit, asc, sizes)
-				}
-			}
+			replayPagesLine(out, line)
 		}
 		return 0
 	}
@@ -704,6 +719,29 @@ func cmdPages(args []string) int {
 		}
 	}
 	return 0
+}
+
+// replayPagesLine re-runs one TIE-D case: the history, then the listing/order/sizes named by the case
+func replayPagesLine(out *Out, line string) {
+	sx, err := ParseSx(line)
+	must(err)
+	name := sx.List[2].List[1].Atom
+	var pit *libtime.Time
+	if a := sx.List[2].List[2].Atom; a != "nil" {
+		pit = &libtime.Time{Time: time.UnixMicro(atoi(a)).UTC()}
+	}
+	var sizes []int
+	for _, s := range sx.List[4].List {
+		sizes = append(sizes, int(atoi(s.Atom)))
+	}
+	asc := sx.List[5].Atom == "1"
+	feat, ops := parseHistCase(sexpString(sx.List[6]))
+	hr := runHistory(feat, ops, false)
+	for _, v := range pageVariants() {
+		if v.name == name {
+			checkVariant(out, hr, v, pit, asc, sizes)
+		}
+	}
 }
 
 // sexpString prints a parsed s-expression back (used to hand the embedded history to parseHistCase)
